@@ -1,5 +1,10 @@
 #!/usr/bin/env python3
-import json, sys, glob, jsonschema
+import json, sys, glob
+try:
+    import jsonschema
+except ImportError:
+    import os
+    os.execvp("python3-vt", ["python3-vt"] + sys.argv)
 schema = json.load(open("/root/.vp/EVIDENCE.schema.json"))
 ok = True
 for p in sorted(glob.glob("/verif/evidence/*.json")):
